@@ -84,6 +84,6 @@ def run_probe(prop, obligation, scratch, only_file=None):
             _CACHE[(scratch.dir, fn)] = (None, out[-2000:])
             return _CACHE[(scratch.dir, fn)]
         keep = "\n".join(l for l in out.splitlines() if "PROBE" in l or "panicked" in l or "test result" in l)
-        _CACHE[(scratch.dir, fn)] = (int(mres.group(3)) > 0, keep[-3000:])
+        _CACHE[(scratch.dir, fn)] = (int(mres.group(3)) > 0, keep[-12000:])
         return _CACHE[(scratch.dir, fn)]
     return None, ""
